@@ -275,6 +275,19 @@ def _add_write_method(field, ir):
         field_builder.write_method.read_only = True
         return
 
+    if referenced_field.write_method.which_method == "transform":
+        # The aliased field is itself a computed virtual field.  Its view has no
+        # "null" state for the alias accessor to fall back on, so this field
+        # cannot simply forward to it; instead, it is written the same way.
+        if len(field.read_transform.field_reference.path) == 1:
+            field_builder.write_method.transform.CopyFrom(
+                referenced_field.write_method.transform
+            )
+        else:
+            # The transform's destination is relative to another structure.
+            field_builder.write_method.read_only = True
+        return
+
     # Otherwise, it can be written as a direct alias.
     field_builder.write_method.alias.CopyFrom(field.read_transform.field_reference)
 
